@@ -177,6 +177,8 @@ def minimise(prop, scenario, violation, ctx, budget_s=90.0, max_attempts=600):
     """Greedy delta debugging over the property's own shrink candidates, keeping the violation class."""
     t0 = time.time()
     attempts = 0
+    saved_timeout = ctx.timeout
+    ctx.timeout = min(ctx.timeout, 10.0)      # shrink candidates that hang must not eat the budget
     cur, curv = scenario, violation
     progress = True
     while progress and time.time() - t0 < budget_s and attempts < max_attempts:
@@ -196,6 +198,7 @@ def minimise(prop, scenario, violation, ctx, budget_s=90.0, max_attempts=600):
                 cur, curv = res.get("scenario", cand), v
                 progress = True
                 break
+    ctx.timeout = saved_timeout
     return cur, curv, attempts
 
 
